@@ -980,7 +980,7 @@ class Gen:
                     f.tags = dict(r.sample([("owner", "John"), ("uuid", "3f74"), ("env", "prod")], r.randint(0, 2)))
                 if any(x.addr == f.addr for x in c.fronts):      # one frontend per (cluster, address)
                     continue
-                # a TCP/UDP address takes the frontends of one cluster (loader rule since 88dc093; the neighbour
+                # a TCP/UDP address takes the frontends of one cluster (loader rule since e9031f0; the neighbour
                 # 'tcp-address-two-clusters' breaks it on purpose)
                 owners = self.__dict__.setdefault("towner", {})
                 if owners.setdefault(ca, cid) != cid:
@@ -1391,7 +1391,7 @@ LEVEL_NOTE = ("Partial where stated: TOML -> FileConfig (toml/serde) is covered 
               "listener of the frontend's protocol, a declared listener of another protocol is rejected. Trusted: Coq kernel; extraction + "
               "ocaml/driver.ml for the correspondence only; certificate parsing is an oracle. Defects found and fixed in /repo: u8 message "
               "counter (cd23906), certificate without key (1ae5a06), unvalidated health_check (c916f85), duplicate frontends accepted "
-              "(b1489f3, 495ea94), duplicate backends merged (58bb4e6), a TCP/UDP address claimed by two clusters accepted (88dc093).")
+              "(b1489f3, 495ea94), duplicate backends merged (58bb4e6), a TCP/UDP address claimed by two clusters accepted (e9031f0).")
 TECHNIQUE = "Rocq/Coq proof over an executable Gallina model + differential correspondence (extracted OCaml vs real crate)"
 
 
